@@ -1337,4 +1337,122 @@ example : identifyFamily (1 / 100000 : ℚ) (1 / 100000000) ⟨3 / 10000000000, 
 example : identifyFamily (1 / 100000 : ℚ) 0 ⟨3 / 10000000000, 4 / 10000000000, 5 / 10000000000, 90, 90, 90⟩
     = some .orthorhombic := by decide +kernel
 end famscale
+
+/-! # statement audit -/
+section audit
+
+/-- the hand-written list `settings` that `centering_inverse` / `centering_det` quantify over is the WHOLE key set of the
+    regenerated tables: every other string is refused by both lookups (a ninth centering added to miller.py breaks this). -/
+theorem centering_settings_exhaustive {K : Type} [NatCast K] [Div K] [Neg K] (s : String) (hs : s ∉ settings) :
+    (primToConv? s : Option (M3 K)) = none ∧ (convToPrim? s : Option (M3 K)) = none := by
+  simp only [settings, List.mem_cons, List.not_mem_nil, or_false, not_or] at hs
+  obtain ⟨h1, h2, h3, h4, h5, h6, h7, h8⟩ := hs
+  constructor <;> simp [primToConv?, convToPrim?, h1, h2, h3, h4, h5, h6, h7, h8]
+
+variable {K : Type} [Field K] [LinearOrder K] [IsStrictOrderedRing K]
+
+/-- **identification, exactly, without the window hypothesis**: the first six families are identified iff their predicate
+    holds; `triclinic` iff its predicate holds and not both `α ≈ 90°` and `γ ≈ 90°` (inside that window the orthorhombic
+    or the monoclinic branch comes first). `identify_iff_pred` is the special case outside the window. -/
+theorem identify_iff_pred_exact (rtol atol : K) (htol : 2 * atol + 210 * rtol < 30) (p : CellParams K) :
+    (identifyFamily rtol atol p = some .cubic ↔ isCubic rtol atol p = true) ∧
+    (identifyFamily rtol atol p = some .hexagonal ↔ isHexagonal rtol atol p = true) ∧
+    (identifyFamily rtol atol p = some .tetragonal ↔ isTetragonal rtol atol p = true) ∧
+    (identifyFamily rtol atol p = some .rhombohedral ↔ isRhombohedral rtol atol p = true) ∧
+    (identifyFamily rtol atol p = some .orthorhombic ↔ isOrthorhombic rtol atol p = true) ∧
+    (identifyFamily rtol atol p = some .monoclinic ↔ isMonoclinic rtol atol p = true) ∧
+    (identifyFamily rtol atol p = some .triclinic ↔ (isTriclinic rtol atol p = true ∧
+      ¬(isclose rtol atol p.alpha deg90 = true ∧ isclose rtol atol p.gamma deg90 = true))) := by
+  have back : ∀ f, identifyFamily rtol atol p = some f →
+      (match f with
+        | .cubic => isCubic rtol atol p | .hexagonal => isHexagonal rtol atol p
+        | .tetragonal => isTetragonal rtol atol p | .rhombohedral => isRhombohedral rtol atol p
+        | .orthorhombic => isOrthorhombic rtol atol p | .monoclinic => isMonoclinic rtol atol p
+        | .triclinic => isTriclinic rtol atol p) = true := by
+    intro f hf
+    simp only [identifyFamily] at hf
+    split_ifs at hf <;> cases hf <;> assumption
+  refine ⟨⟨back .cubic, identify_cubic_of_pred _ _ _⟩, ⟨back .hexagonal, identify_hexagonal_of_pred _ _ _ htol⟩,
+    ⟨back .tetragonal, identify_tetragonal_of_pred _ _ _ htol⟩,
+    ⟨back .rhombohedral, identify_rhombohedral_of_pred _ _ _⟩,
+    ⟨back .orthorhombic, identify_orthorhombic_of_pred _ _ _⟩,
+    ⟨back .monoclinic, identify_monoclinic_of_pred _ _ _⟩,
+    ⟨fun h => ⟨back .triclinic h, ?_⟩, fun h => identify_triclinic_of_pred _ _ _ h.1 h.2⟩⟩
+  rintro ⟨h90a, h90g⟩
+  have ht := back .triclinic h
+  simp only [isTriclinic, Bool.and_eq_true, Bool.not_eq_true'] at ht
+  obtain ⟨⟨⟨hab, hac⟩, _⟩, _⟩ := ht
+  by_cases hb : isclose rtol atol p.beta deg90 = true
+  · have ho : isOrthorhombic rtol atol p = true := by simp [isOrthorhombic, hab, hac, h90a, hb, h90g]
+    rw [identify_orthorhombic_of_pred _ _ _ ho] at h; cases h
+  · have hb' : isclose rtol atol p.beta deg90 = false := by simpa using hb
+    have hm : isMonoclinic rtol atol p = true := by simp [isMonoclinic, hab, hac, h90a, hb', h90g]
+    rw [identify_monoclinic_of_pred _ _ _ hm] at h; cases h
+
+end audit
+
+/-! ## direct instantiations (every hypothesis discharged; K = ℚ) -/
+section auditex
+def exV : M3 ℚ := ⟨⟨2, 0, 0⟩, ⟨1, 3, 0⟩, ⟨1, 1, 4⟩⟩
+def exI : M3 ℚ := ⟨⟨1, 0, 0⟩, ⟨0, 1, 0⟩, ⟨0, 0, 1⟩⟩
+def exNorm : V3 ℚ → ℚ := fun v => if v = ⟨3, 4, 0⟩ then 5 else if v = ⟨12, 16, 0⟩ then 20 else 0
+theorem exV_det : M3.det exV = 24 := by norm_num [exV, M3.det, V3.dot, V3.cross]
+theorem exI_det : M3.det exI = 1 := by norm_num [exI, M3.det, V3.dot, V3.cross]
+theorem exNorm_at : IsNormAt exNorm ⟨3, 4, 0⟩ := by
+  unfold IsNormAt exNorm; simp [V3.normSq, V3.dot]; norm_num
+theorem exNorm_at4 : IsNormAt exNorm (V3.smul (2 * 2) ⟨3, 4, 0⟩) := by
+  unfold IsNormAt exNorm; simp [V3.normSq, V3.dot, V3.smul]; norm_num
+
+example := normal_nonzero exV (by rw [exV_det]; norm_num) 2 (-3) 4 (by decide)
+example := IsNormAt.pos exNorm_at (by norm_num [V3.normSq, V3.dot])
+example : exNorm (V3.smul (2 * 2) ⟨3, 4, 0⟩) = (2 * 2) * exNorm ⟨3, 4, 0⟩ :=
+  IsNormAt.smul (2 * 2) (by norm_num) exNorm_at exNorm_at4
+-- the plane (3 4 0) of the unit cube: the normal is perpendicular to [4 -3 7] (zone law) and to nothing off the zone
+example := gen_normal_perp_iff_zone exI (by rw [exI_det]; norm_num) 3 4 0 (by decide) exNorm ⟨4, -3, 7⟩
+example := gen_normal_unit_along_reciprocal exI (by rw [exI_det]; norm_num) 3 4 0 (by decide) exNorm
+example := (gen_normal_scale_invariant (2 : ℚ) (by norm_num) exI 3 4 0 exNorm).2 ⟨3, 4, 0⟩ (by decide +kernel) exNorm_at exNorm_at4
+example := normal_is_reciprocal exV (by rw [exV_det]; norm_num) 2 (-3) 4 (by decide)
+example := normal_perp_iff_zone exV (by rw [exV_det]; norm_num) 2 (-3) 4 (by decide) (7 / 2) (by norm_num) ⟨3, 2, 0⟩
+example := normal_unit_along_reciprocal exV (by rw [exV_det]; norm_num) 2 (-3) 4 (by decide)
+example := normal_left_handed (⟨⟨1, 3, 0⟩, ⟨2, 0, 0⟩, ⟨1, 1, 4⟩⟩ : M3 ℚ) (by norm_num [M3.det, V3.dot, V3.cross]) 2 (-3) 4 (by decide)
+example := gen_plane34_roundtrip (1 / 100000000 : ℚ) (by norm_num)
+example := (gen_plane34_roundtrip (1 / 100000000 : ℚ) (by norm_num)).2 ⟨2, -3, 1, 4⟩ ⟨2, -3, 4⟩ (by decide +kernel) (by norm_num)
+example := (gen_vector34_roundtrip (1 / 100000000 : ℚ) (by norm_num)).2 ⟨2 / 3, -1 / 3, -1 / 3, 0⟩ ⟨1, 0, 0⟩ (by decide +kernel) (by norm_num)
+example := vector4_same_direction (1 / 100000000 : ℚ) exV ⟨2 / 3, -1 / 3, -1 / 3, 0⟩ ⟨1, 0, 0⟩ (by decide +kernel) (by norm_num)
+example := plane43_int_roundtrip (1 / 100000000 : ℚ) (by norm_num) (by norm_num) 2 (-3) 1 4 ⟨2, -3, 4⟩ (by decide +kernel)
+example := sumIsZero_int (1 / 100000000 : ℚ) (by norm_num) (by norm_num) 3
+-- family identification: a triclinic cell outside the window, all tolerances the defaults
+theorem exTri : isTriclinic (1 / 100000 : ℚ) (1 / 100000000) ⟨3, 4, 5, 80, 100, 110⟩ = true := by decide +kernel
+example := identify_iff_pred (1 / 100000 : ℚ) (1 / 100000000) (by norm_num) ⟨3, 4, 5, 80, 100, 110⟩
+  (fun _ h => by have : isclose (1 / 100000 : ℚ) (1 / 100000000) 80 deg90 = false := by decide +kernel
+                 rw [this] at h; exact Bool.false_ne_true h.1)
+example := gen_identify_iff_pred (1 / 100000 : ℚ) (1 / 100000000) (by norm_num) ⟨3, 4, 5, 80, 100, 110⟩
+  (fun _ h => by have : isclose (1 / 100000 : ℚ) (1 / 100000000) 80 deg90 = false := by decide +kernel
+                 rw [this] at h; exact Bool.false_ne_true h.1)
+-- inside the window (α, γ ≈ 90° but α ≉ γ, α ≉ β): the triclinic predicate holds but the monoclinic branch answers —
+-- the hypothesis `hwin` of `identify_iff_pred` is needed, and `identify_iff_pred_exact` says what happens without it
+example : isTriclinic (1 / 100000 : ℚ) (1 / 100000000) ⟨3, 4, 5, 90 - 8 / 10000, 100, 90 + 8 / 10000⟩ = true
+    ∧ identifyFamily (1 / 100000 : ℚ) (1 / 100000000) ⟨3, 4, 5, 90 - 8 / 10000, 100, 90 + 8 / 10000⟩ = some .monoclinic := by
+  decide +kernel
+example := identify_tetragonal (1 / 100000 : ℚ) (1 / 100000000) (by norm_num) (by norm_num) (by norm_num) 3 5 (by decide +kernel)
+example := identify_rhombohedral (1 / 100000 : ℚ) (1 / 100000000) (by norm_num) (by norm_num) 3 60 (by decide +kernel)
+example := identify_orthorhombic (1 / 100000 : ℚ) (1 / 100000000) (by norm_num) (by norm_num) 3 4 5 (by decide +kernel) (by decide +kernel)
+example := identify_monoclinic (1 / 100000 : ℚ) (1 / 100000000) (by norm_num) (by norm_num) 3 4 5 100 (by decide +kernel) (by decide +kernel) (by decide +kernel)
+example := identify_triclinic (1 / 100000 : ℚ) (1 / 100000000) 3 4 5 80 100 110 (by decide +kernel) (by decide +kernel) (by decide +kernel) (by decide +kernel) (Or.inl (by decide +kernel))
+example := identify_hexagonal (1 / 100000 : ℚ) (1 / 100000000) (by norm_num) (by norm_num) (by norm_num) 3 5
+example := isclose_scale_atol0 (1 / 100000 : ℚ) (1 / 10000000000) 3 5 (by norm_num)
+example := identify_scale_atol0 (1 / 100000 : ℚ) (1 / 10000000000) (by norm_num) ⟨3, 4, 5, 90, 90, 90⟩
+-- reduce / all_indices / ordering
+example := reduce_same_direction [4, -6, 8] (Or.inl rfl) ⟨4, by decide, by decide⟩
+example := reduce_coprime [4, -6, 8, 0] (Or.inr rfl) ⟨4, by decide, by decide⟩
+example := allIndices_reduce_coprime 2 [1, -2, 0] (by decide)
+example := allIndices_sound 2 [1, -2, 0] (by decide)
+example := lexLt_trans [1, -2, 0] [1, -1, 5] [1, 0, -7] (by decide) (by decide)
+example := lexLt_total [1, -1, 5] [1, -2, 0] (by decide) (by decide)
+example := insertUniq_sorted [0, 1, 0] [[-1, 0, 0], [0, 0, 1], [1, 0, 0]] (by decide)
+example := inplane_zone 2 (-3) 4 ⟨-6, -4, 0⟩ ⟨-6, 0, 3⟩ (-1) (by decide)
+example := plane3to4_third_negative 2 3 (-7) (by decide) (by decide) (by decide)
+example := normal_unit_along_reciprocal_rotated exV ⟨⟨2/3, -1/3, 2/3⟩, ⟨2/3, 2/3, -1/3⟩, ⟨-1/3, 2/3, 2/3⟩⟩
+  (by rw [exV_det]; norm_num) (by norm_num [M3.det, V3.dot, V3.cross]) 2 (-3) 4 (by decide)
+end auditex
 end Atomman.C16
